@@ -269,7 +269,7 @@ func c13Values() []reflect.Value {
 	five := 5
 	s := "v"
 	ch := make(chan int, 1)
-	vs := []interface{}{"{\"k\":\x00}", "it's\x1a", "a\\b\x00'", "v", "12", "2021-01-11 23:22:11", "1,2", "{}", "测试", int8(-3), int(7), int64(1) << 40, uint8(9), uint64(1) << 63, float32(1.5), 2.5, true,
+	vs := []interface{}{"510000000000000", "51000000000000000X", "{\"k\":\x00}", "it's\x1a", "a\\b\x00'", "v", "12", "2021-01-11 23:22:11", "1,2", "{}", "测试", int8(-3), int(7), int64(1) << 40, uint8(9), uint64(1) << 63, float32(1.5), 2.5, true,
 		[]int{1, 2}, []string{"a", "a"}, []float64{0.5}, [2]int{1, 1}, []interface{}{1, "a", nil}, map[string]int{"a": 1}, map[int]int{1: 1}, &five, &s, ch, func() {}, 1 + 2i,
 		struct{ A int }{1}, &struct{ A int }{1}, []*int{nil, &five}, [][]int{{1}}, []byte("ab"), uintptr(5), unsafe.Pointer(&five), interface{}(nil),
 		// arrays handed over by value (not addressable), of every element class
